@@ -25,7 +25,7 @@ def mirror(tok):
     return tok[:-1][::-1] + "K"
 
 
-def protein_db(rng, n_prot=30, shared_frac=0.15, subset_frac=0.15, anagrams=4, prefix="decoy_"):
+def protein_db(rng, n_prot=30, shared_frac=0.15, subset_frac=0.15, anagrams=4, prefix="decoy_", equal_frac=0.0):
     """Returns dict: targets {name: [tokens]}, decoys {name: [tokens]}, fasta entries."""
     used = set()
 
@@ -49,6 +49,10 @@ def protein_db(rng, n_prot=30, shared_frac=0.15, subset_frac=0.15, anagrams=4, p
     for _ in range(int(n_prot * subset_frac)):
         a, b = rng.choice(n_prot, size=2, replace=False)
         prots[names[b]] = list(prots[names[a]][: max(1, len(prots[names[a]]) - 1)])
+    # proteins with identical peptide sets (e.g. isoforms that differ outside the detectable peptides)
+    for _ in range(int(n_prot * equal_frac)):
+        a, b = rng.choice(n_prot, size=2, replace=False)
+        prots[names[b]] = list(prots[names[a]])
     # anagram tokens in different proteins (same composition, both unique)
     for _ in range(anagrams):
         a, b = rng.choice(n_prot, size=2, replace=False)
